@@ -1,6 +1,9 @@
 package coding
 
-import "github.com/M2MGateway/go-smpp/coding/gsm7bit"
+import (
+	"github.com/M2MGateway/go-smpp/coding/gsm7bit"
+	"golang.org/x/text/encoding"
+)
 
 type Splitter func(rune) int
 
@@ -20,6 +23,20 @@ var (
 		return 32
 	}
 )
+
+// measuredSplitter charges a character the octets the encoder emits for it on
+// its own; for stateless encodings whose characters vary in length.
+func measuredSplitter(enc encoding.Encoding) Splitter {
+	return func(r rune) int {
+		if r < 0x80 {
+			return 8
+		}
+		if out, err := enc.NewEncoder().Bytes([]byte(string(r))); err == nil && len(out) > 0 {
+			return len(out) * 8
+		}
+		return 16
+	}
+}
 
 func (fn Splitter) Len(input string) (n int) {
 	for _, point := range input {
